@@ -91,6 +91,18 @@ func (in *objIndex) UnmarshalJSON(data []byte) error {
 		return err
 	}
 
+	for fn, fi := range tmp.Fields {
+		if fi == nil {
+			return fmt.Errorf("%w: null index for field %s", ErrMalformedIndex, fn)
+		}
+	}
+	if tmp.Fields == nil {
+		tmp.Fields = make(map[string]*fieldIndex)
+	}
+	if tmp.ObjectIds == nil {
+		tmp.ObjectIds = make(map[uint64]string)
+	}
+
 	in.i = 0
 	in.Fields = tmp.Fields
 	in.ObjectIds = tmp.ObjectIds
